@@ -302,7 +302,7 @@ fn check_root(root: &Relations, model: &FieldM, before: &str, touched: &[usize],
 }
 
 fn gen_relspec(rng: &mut Rng, seq: usize) -> RelSpec {
-    let f = grel::RelFlags { free_ws: rng.chance(1, 3), newlines: false, substvars: false, empty_entries: false, trailing_comma: false, epochs: rng.chance(1, 3), max_entries: 1, neg_archs: rng.chance(1, 2) };
+    let f = grel::RelFlags { free_ws: rng.chance(1, 3), newlines: false, substvars: false, empty_entries: false, trailing_comma: false, epochs: rng.chance(1, 3), max_entries: 1, neg_archs: rng.chance(1, 2), empty_archs: false };
     let name = format!("{}{}", rng.s(grel::PKG), seq);
     let version = if rng.chance(1, 2) { Some((rng.s(grel::OPS).to_string(), grel::version(rng, f.epochs))) } else { None };
     match rng.below(5) {
